@@ -1,7 +1,7 @@
 (* C14 — constructor success implies Validate success implies a clean wire round trip;
    documented defects are rejected by constructor and validator alike. *)
 From Model Require Import Bytes Prim Tables Cert KAC Mapping Sig.
-From Proofs Require Import CtorProofs MappingProofs.
+From Proofs Require Import CtorProofs MappingProofs CtorRT.
 Open Scope Z_scope.
 
 Theorem C14_signature : forall d t s, new_signature_from_bytes d t = Ok s ->
@@ -47,3 +47,26 @@ Proof. exact new_certificate_valid. Qed.
 Print Assumptions C14_certificate.
 Theorem C14_mapping_over_limit_rejected : forall v, (length v > 1000)%nat -> values_to_mapping v = Err.
 Proof. exact values_to_mapping_rejects_many. Qed.
+
+(* KeysAndCert: for every key-type pair the wire reader supports, a value the constructor
+   returns validates, serialises, and the bytes (followed by anything) parse back to the same
+   keys, padding and serialisation *)
+Theorem C14_keys_and_cert_roundtrip : forall y kc p pad s k r,
+  wf y -> new_key_certificate y = Ok (kc, []) -> wf (y ++ r) ->
+  new_keys_and_cert kc (Some p) pad (Some s) = Ok k ->
+  In (kc_crypto_type kc) [0; 4; 5; 6; 7] -> In (kc_signing_type kc) [0; 1; 2; 7; 8; 11] ->
+  kac_validate k = true /\
+  exists b k', kac_bytes k = Ok b /\ read_keys_and_cert (b ++ r) = Ok (k', r) /\ kac_bytes k' = Ok b /\
+               k_pub k' = Some p /\ k_pad k' = pad /\ k_spk k' = Some s.
+Proof. exact new_kac_roundtrip. Qed.
+Print Assumptions C14_keys_and_cert_roundtrip.
+(* ... and NOT for the other pairs the size tables know (finding D22): witness signing 7, crypto 1 *)
+Theorem C14_keys_and_cert_unparseable_types_refuted :
+  match new_keys_and_cert d22_kc (Some (repeatN 1 64)) (repeatN 2 288) (Some (repeatN 3 32)) with
+  | Ok k => kac_validate k = true /\ match kac_bytes k with Ok b => read_keys_and_cert b = Err | _ => False end
+  | _ => False
+  end.
+Proof. exact kac_unparseable_types_gap. Qed.
+Theorem C14_offline_signature_roundtrip : forall e st key sg dt o r, new_offline_signature e st key sg dt = Ok o ->
+  (e < 2 ^ 32)%N -> (st < 65536)%N -> read_offline_signature (off_bytes o ++ r) dt = Ok (o, r).
+Proof. exact new_offline_roundtrip. Qed.
